@@ -420,14 +420,11 @@ end
 `0 … n-1`) and on the list of slots whose mutation changed the original. -/
 def specClone (n : Nat) (implCopy : V) (aliasPaths : List String) : String :=
   let shared := (locsCtx false implCopy).filter fun x => x.2 < n
-  let outside := shared.filter fun x => !x.1
-  let pathsOutside := aliasPaths.filter fun p => !(p.toList.contains '!')
+  let behind := shared.filter fun x => x.1
   if shared.isEmpty && aliasPaths.isEmpty then "ok"
-  else if outside.isEmpty && pathsOutside.isEmpty then
-    "KNOWN iface-shared the copy shares " ++ toString shared.length ++ " cell(s) with the original, all reached through an interface-typed field; "
-      ++ toString aliasPaths.length ++ " mutation(s) of the copy changed the original, first: " ++ (aliasPaths.head?.getD "-")
   else
-    "FAIL copy is not independent: " ++ toString outside.length ++ " shared cell(s) not behind an interface; mutations that changed the original: "
-      ++ ",".intercalate (pathsOutside.take 5)
+    "FAIL copy is not independent: " ++ toString shared.length ++ " cell(s) shared with the original (" ++
+      toString behind.length ++ " behind an interface); mutations of the copy that changed the original: " ++
+      ",".intercalate (aliasPaths.take 5)
 
 end MtxVerif.C11
